@@ -208,7 +208,16 @@ def first_diff(sc, t, v, a, b):
         return first_diff(sc, t[1], v, a, b)
     if a[0] != b[0] or a[0] == "err":
         return (t, v)
-    a, b = a, b
+    if k == "union":
+        # descend through a container / dataclass member whose shape fits value and both outputs
+        dms = [q[1] for q in t[1] if q[0] == "data"]
+        for mt in t[1]:
+            # (an instance of a later dataclass member stays at the union: static-dispatch signature)
+            if mt[0] in ("list", "dict", "tuple") or (mt[0] == "data" and v[0] == "obj" and v[1] == mt[1] and dms[0] == mt[1]):
+                d = first_diff(sc, mt, v, a, b)
+                if d is not None and d != (mt, v):
+                    return d
+        return (t, v)
     if k == "list" and v[0] in ("list", "tuple") and a[0] == "list" and b[0] == "list" and len(a[1]) == len(b[1]) == len(v[1]):
         for x, ax, bx in zip(v[1], a[1], b[1]):
             d = first_diff(sc, t[1], x, ax, bx)
